@@ -12,7 +12,8 @@
      C  hand-made requests: every combination of credential x method x media type x well-formedness
         x items (HTTP), credential x well-formedness x items (gRPC), also against the receiver with a
         restricted decoder list.
-   Depth = "quick": RetryInfo in {absent, 7 s}, no wrapping, raw requests over 3 codings;
+   Depth = "quick": RetryInfo in {absent, 7 s}, wrapped status errors (permanent wrapper, fmt.Errorf %w) on one
+   channel per transport/encoding only, raw requests over 3 codings;
    Depth = "full": RetryInfo in {absent, 0, 1 s, 1.5 s, 7 s}, status errors also wrapped in a permanent error
    or by fmt.Errorf("%w"),
    raw requests over all codings. *)
@@ -25,7 +26,8 @@ HttpComps == Codings \cup { "none" }
 GrpcComps == { "none", "gzip", "snappy", "zstd" }
 RawHttpComps == IF Depth = "full" THEN HttpComps ELSE { "none", "gzip", "zstd" }
 RIs   == IF Depth = "full" THEN { NoRI, 0, 1000, 1500, 7000 } ELSE { NoRI, 7000 }
-Wraps == IF Depth = "full" THEN { "no", "perm", "fmt" } ELSE { "no" }   \* NewPermanent(st.Err()), fmt.Errorf("%w", st.Err())
+Wrappers == { "perm", "fmt" }                 \* NewPermanent(st.Err()), fmt.Errorf("...: %w", st.Err())
+Wraps == IF Depth = "full" THEN { "no" } \cup Wrappers ELSE { "no" }
 Restricted == { "identity", "gzip" }            \* compression_algorithms: ["", "gzip"]
 
 Nil == [kind |-> "nil", code |-> "", ri |-> NoRI, wrap |-> "no"]
@@ -48,6 +50,13 @@ RecvOf(auth) == IF auth = "off" THEN "off" ELSE "auth"
 
 ReqA == { R(ch, sig, "exporter", a, RecvOf(a), "POST", TRUE, "some", out)
           : ch \in Channels, sig \in Signals, a \in {"off", "good"}, out \in Outcomes }
+(* A' (quick only; "full" has the wrapped shapes in Outcomes for every channel): every code x RetryInfo
+   wrapped by a permanent error or by fmt.Errorf("%w"), on one channel per transport / encoding *)
+WrapChannels == { ch \in Channels : ch.comp = "gzip" }
+WrappedOutcomes == { [kind |-> "status", code |-> c, ri |-> ri, wrap |-> wr] : c \in GrpcCodes, ri \in RIs, wr \in Wrappers }
+ReqAW == IF Depth = "full" THEN {}
+         ELSE { R(ch, sig, "exporter", "off", "off", "POST", TRUE, "some", out)
+                : ch \in WrapChannels, sig \in Signals, out \in WrappedOutcomes }
 ReqB == { R(ch, sig, "exporter", "bad", "auth", "POST", TRUE, "some", Nil) : ch \in Channels, sig \in Signals }
         \cup { R(ch, sig, "exporter", "off", "off", "POST", TRUE, "zero", Nil) : ch \in Channels, sig \in Signals }
         \cup { R(ch, sig, "exporter", "off", "restricted", "POST", TRUE, "some", Nil)
@@ -72,7 +81,7 @@ ReqD == { [ R([transport |-> "http", media |-> m, comp |-> cp], sig, "exporter",
               EXCEPT !.stub = [status |-> st, ra |-> ra] ]
           : m \in {"proto", "json"}, cp \in StubComps, sig \in Signals, st \in StubStatuses, ra \in StubRAs }
 
-MCRequests == ReqA \cup ReqB \cup ReqCValid \cup ReqD
+MCRequests == ReqA \cup ReqAW \cup ReqB \cup ReqCValid \cup ReqD
 
 (* ---- design invariants: every clause of the statement on every finished request ---------- *)
 InvSuccessIff               == Done => SuccessIff(req, HopObsOf)
